@@ -35,6 +35,7 @@ type Ctx struct {
 	modFuncs []*ssa.Function // all functions of the module with bodies, sorted
 
 	unresolved []string // anchors that could not be resolved
+	pure       map[*ssa.Function]int8
 	stats      struct {
 		packages, functions, blocks, instrs int
 	}
